@@ -82,3 +82,28 @@ def register(check):
           floors={"quick": {"fccore_runs": 4000, "fccore_waits_entered": 3000, "fccore_update_between_load_and_wait": 300, "fccore_sender_observed_blocked": 300, "fccore_cancelled_runs": 200, "progress_runs": 150, "progress_blocked_points": 300},
                   "thorough": {"fccore_runs": 200000, "fccore_waits_entered": 150000, "fccore_update_between_load_and_wait": 15000, "progress_runs": 5000, "progress_blocked_points": 10000}},
           assumptions=COMMON_ASSUMPTIONS + ["unbounded total volume is sampled up to a few MB per stream; 'never strands' is decided at bubble quiescence (nothing runnable, no timer pending)"])
+    check("C06",
+          level="exploration",
+          rule="(a) invariant side: the window monitor runs online on every frame of a stratified union of the C01, C03, C04, C05, C07 workloads (sender bound at each data emit against credit delivered to the sender, credit <= data delivered, chunk <= 16 KiB); "
+               "(b) enforcement side: a raw tunnel client overruns one stream (exactly one window, +1 byte, +1 chunk, 5 windows, across messages, after partial credit exact/+1, on one of several streams, one huge frame, 32 MiB flood with heap measurement) and a raw tunnel server overruns a caller; "
+               "non-trivial = at least one data frame was judged by the window monitor or an overrun verdict was reached; distinct = distinct (family, cfg, kind, op/outcome shape)",
+          nontrivial="tap_events",
+          floors={"quick": {"win_data_events": 20000, "win_credits": 15000, "win_full_windows": 1000, "overrun_runs": 36, "overrun_expected_re": 24, "overrun_expected_ok": 6, "flood_bytes": 60000000, "rawsrv_expect_rexhausted": 4},
+                  "thorough": {"win_data_events": 600000, "win_credits": 400000, "overrun_runs": 1000, "flood_bytes": 300000000}},
+          assumptions=COMMON_ASSUMPTIONS + ["'buffers' = the un-consumed receive queue that flow control accounts for; the reassembly buffer of the one message being read is not counted (DESIGN.md C06)"])
+    check("C13",
+          level="exploration",
+          rule="the online wire monitor (per-stream protocol automaton on both directions of every carrier stream) runs on every frame of a stratified union of the C01-C12, C16, C17 workloads; "
+               "non-trivial = at least one frame emitted by a library endpoint was judged; distinct = distinct (family, cfg, inputs, op/outcome shape)",
+          nontrivial="wire_frames",
+          floors={"quick": {"wire_frames": 150000, "wire_data_frames": 60000, "wire_messages": 30000, "wire_streams": 8000, "close_frame_checks": 3000},
+                  "thorough": {"wire_frames": 4000000, "wire_streams": 200000, "close_frame_checks": 80000}},
+          assumptions=COMMON_ASSUMPTIONS + ["frames emitted by raw (harness) peers are not judged; legal API usage only"])
+    check("C14",
+          level="exploration",
+          rule="stream-table hooks are read at quiescent points and goroutine dumps (bubble goroutines attributed by function) are taken after tear-down + 1h of virtual time, on a stratified union of the C01-C12, C16, C17 workloads with emphasis on abnormal endings "
+               "(every termination cause at every k, every cancel point, raw-peer deviations); non-trivial = the leak check ran on a scenario that produced tunnel traffic; distinct = distinct (family, cfg, inputs, op/outcome shape)",
+          nontrivial="leak_check_done",
+          floors={"quick": {"leak_check_done": 3000, "table_checks": 3000, "termination_runs": 500, "cancel_runs": 500, "raw_conversations": 300},
+                  "thorough": {"leak_check_done": 60000, "table_checks": 60000}},
+          assumptions=COMMON_ASSUMPTIONS + ["goroutines are attributed to the library if their stack has a github.com/jhump/grpctunnel frame"])
